@@ -29,15 +29,17 @@ import (
 
 var names = []string{"eth0", "eth1", "eth2", "lo", "wan0"}
 
-// tokens is the token alphabet of the exhaustive part.
-var tokens = func() []string {
-	t := append([]string{}, names...)
+func tokensOf(ns []string) []string {
+	t := append([]string{}, ns...)
 	t = append(t, "any", "ANY")
-	for _, n := range names {
+	for _, n := range ns {
 		t = append(t, "!"+n)
 	}
 	return t
-}()
+}
+
+// tokens is the full token alphabet (used by the random long lists).
+var tokens = tokensOf(names)
 
 // ifaceSet describes a database root: which interface directories exist and which of them is empty.
 type ifaceSet struct {
@@ -45,80 +47,85 @@ type ifaceSet struct {
 	Empty   string // member that has a directory but no data ("" = none)
 }
 
-// quickSets are the 8 sets of existing interfaces of the quick tier; thorough adds all other subsets.
-var quickSets = []ifaceSet{
-	{Members: nil},
-	{Members: []string{"eth0"}},
-	{Members: []string{"lo"}},
-	{Members: []string{"eth0", "eth1"}},
-	{Members: []string{"eth0", "eth1", "eth2"}, Empty: "eth1"},
-	{Members: []string{"eth0", "lo", "wan0"}},
-	{Members: []string{"eth1", "eth2", "lo", "wan0"}, Empty: "wan0"},
-	{Members: []string{"eth0", "eth1", "eth2", "lo", "wan0"}},
+// plan is one exhaustive enumeration: all lists of length 1..MaxLen over Tokens against each of Sets.
+type plan struct {
+	Names  []string
+	Tokens []string
+	MaxLen int
+	Sets   []ifaceSet
 }
 
-func allSets(tier string) []ifaceSet {
-	if tier != "thorough" {
-		return quickSets
-	}
-	sets := append([]ifaceSet{}, quickSets...)
-	seen := map[string]bool{}
-	for _, s := range sets {
-		seen[strings.Join(s.Members, ",")] = true
-	}
-	for m := 0; m < 1<<len(names); m++ {
+// subsets returns all subsets of ns plus a few variants in which one member is an empty directory.
+func subsets(ns []string) []ifaceSet {
+	var sets []ifaceSet
+	for m := 0; m < 1<<len(ns); m++ {
 		var mem []string
-		for i, n := range names {
+		for i, n := range ns {
 			if m&(1<<i) != 0 {
 				mem = append(mem, n)
 			}
 		}
-		if !seen[strings.Join(mem, ",")] {
-			sets = append(sets, ifaceSet{Members: mem})
-		}
+		sets = append(sets, ifaceSet{Members: mem})
 	}
+	sets = append(sets, ifaceSet{Members: append([]string{}, ns...), Empty: ns[1]})
+	sets = append(sets, ifaceSet{Members: []string{ns[0], ns[len(ns)-1]}, Empty: ns[len(ns)-1]})
 	return sets
 }
 
-func maxLen(tier string) int {
+var names3 = []string{"eth0", "eth1", "lo"}
+
+// plans: quick = all lists up to length 4 over the 3-name alphabet (8 tokens) against all 8 subsets of
+// existing interfaces (+2 empty-directory variants); thorough = the same up to length 5, plus all lists
+// up to length 4 over the 5-name alphabet (12 tokens) against all 32 subsets (+2 variants).
+func plans(tier string) []plan {
 	if tier == "thorough" {
-		return 5
+		return []plan{
+			{Names: names3, Tokens: tokensOf(names3), MaxLen: 5, Sets: subsets(names3)},
+			{Names: names, Tokens: tokensOf(names), MaxLen: 4, Sets: subsets(names)},
+		}
 	}
-	return 4
+	return []plan{{Names: names3, Tokens: tokensOf(names3), MaxLen: 4, Sets: subsets(names3)}}
 }
 
 // numLists = Σ_{k=1..L} |tokens|^k
-func numLists(L int) int {
-	n, p := 0, 1
-	for k := 1; k <= L; k++ {
-		p *= len(tokens)
-		n += p
+func (p plan) numLists() int {
+	n, q := 0, 1
+	for k := 1; k <= p.MaxLen; k++ {
+		q *= len(p.Tokens)
+		n += q
 	}
 	return n
 }
 
 // listAt decodes the i-th list (all lists of length 1 first, then length 2, ...).
-func listAt(i int) []string {
-	p := len(tokens)
+func (p plan) listAt(i int) []string {
+	q := len(p.Tokens)
 	k := 1
-	for i >= p {
-		i -= p
-		p *= len(tokens)
+	for i >= q {
+		i -= q
+		q *= len(p.Tokens)
 		k++
 	}
 	out := make([]string, k)
 	for j := k - 1; j >= 0; j-- {
-		out[j] = tokens[i%len(tokens)]
-		i /= len(tokens)
+		out[j] = p.Tokens[i%len(p.Tokens)]
+		i /= len(p.Tokens)
 	}
 	return out
 }
 
-const chunk = 1500
+const chunk = 1200
 
-func chunksPerSet(tier string) int { return (numLists(maxLen(tier)) + chunk - 1) / chunk }
+func (p plan) chunksPerSet() int { return (p.numLists() + chunk - 1) / chunk }
+func (p plan) numCases() int     { return len(p.Sets) * p.chunksPerSet() }
 
-func numExhaustive(tier string) int { return len(allSets(tier)) * chunksPerSet(tier) }
+func numExhaustive(tier string) int {
+	n := 0
+	for _, p := range plans(tier) {
+		n += p.numCases()
+	}
+	return n
+}
 
 func numExtra(tier string) int {
 	if tier == "thorough" {
@@ -131,8 +138,9 @@ func init() {
 	fw.Register(&fw.Check{
 		ID:    "C16",
 		Level: "exploration",
-		Rule: "exhaustive part: every comma separated list of length 1..4 (thorough: 1..5) over the 12 tokens {eth0,eth1,eth2,lo,wan0,any,ANY,!eth0,...,!wan0} " +
-			"against 8 (thorough: all 32) sets of existing interface directories, run through engine.QueryRunner.Run; extra cases: generated /regexp/ arguments, unknown names, !any and malformed arguments. " +
+		Rule: "exhaustive part: every comma separated list of length 1..4 (thorough: 1..5) over the 8 tokens {eth0,eth1,lo,any,ANY,!eth0,!eth1,!lo} against all 8 sets of existing interface directories " +
+			"(+2 variants with an empty interface directory); thorough also every list of length 1..4 over the 12 tokens of the 5-name alphabet {eth0,eth1,eth2,lo,wan0} against all 32 sets (+2); all run through engine.QueryRunner.Run. " +
+			"Extra cases: generated /regexp/ arguments, random lists up to length 9 with unknown names and !any, malformed arguments. " +
 			"A list is non-trivial iff it negates a name that it also selects (by name or through any); distinct by (existing set, argument).",
 		Assumptions: []string{
 			"the interfaces queried are observed as Summary.Interfaces (as a set; duplicates are recorded, not failed) and as the interface labels of the returned rows",
@@ -320,15 +328,23 @@ func judge(c *fw.Case, s ifaceSet, arg string, want map[string]bool, o outcome, 
 
 func run(c *fw.Case) {
 	engine.VerifSetNumProcessingUnits(2)
-	nEx := numExhaustive(c.Tier)
-	if c.Idx >= nEx {
-		runExtra(c, c.Idx-nEx)
+	idx := c.Idx
+	var p plan
+	found := false
+	for _, q := range plans(c.Tier) {
+		if idx < q.numCases() {
+			p, found = q, true
+			break
+		}
+		idx -= q.numCases()
+	}
+	if !found {
+		runExtra(c, idx)
 		return
 	}
-	sets := allSets(c.Tier)
-	cps := chunksPerSet(c.Tier)
-	s := sets[c.Idx/cps]
-	ch := c.Idx % cps
+	cps := p.chunksPerSet()
+	s := p.Sets[idx/cps]
+	ch := idx % cps
 	dbPath, ok := buildDB(c, s)
 	if !ok {
 		return
@@ -337,14 +353,15 @@ func run(c *fw.Case) {
 	for _, m := range s.Members {
 		exists[m] = true
 	}
-	total := numLists(maxLen(c.Tier))
+	total := p.numLists()
 	for i := ch * chunk; i < (ch+1)*chunk && i < total; i++ {
-		list := listAt(i)
+		list := p.listAt(i)
 		arg := strings.Join(list, ",")
 		want := expectList(list, s)
 		o := runArg(c, dbPath, arg)
 		judge(c, s, arg, want, o, listClass(list, s))
 		c.Count("lists", 1)
+		c.Count(fmt.Sprintf("lists_len%d", len(list)), 1)
 		account(c, s, exists, list, arg, want)
 		if i == ch*chunk+7 {
 			c.Sample(map[string]any{"existing": s.Members, "empty_dir": s.Empty, "ifaces_arg": arg, "expected": setString(want),
@@ -402,7 +419,7 @@ func account(c *fw.Case, s ifaceSet, exists map[string]bool, list []string, arg 
 var reFragments = []string{"eth", "eth[0-2]", `eth\d`, "^lo$", "wan", ".*", "0$", "^e", "(eth0|lo)", "[a-z]+0", "x", "eth1|wan0", "^$", "o", "^.{2}$", "[^e]", "eth[12]$", `\bwan0\b`, "ETH0", "(?i)ETH0", "/", "lo/", "^(eth|wan)[0-9]$", "."}
 
 var malformed = []string{"", ",", "eth0,", ",eth0", "!", "!!eth0", "eth0,!,lo", "a-very-long-interface-name", "eth0 ,lo", "//", "/", "///", "/(/", "/eth[/", "/*/",
-	"eth0;lo", "eth0,,eth1", "!,!", " ", "eth0\x00", "ethø", "/eth0", "eth0/", "!/eth0/", "any,", ",any", "!any,", strings.Repeat("eth0,", 300) + "!eth0"}
+	"eth0;lo", "eth0,,eth1", "!,!", " ", "eth0\x00", "ethø", "/eth0", "eth0/", "!/eth0/", "any,", ",any", "!any,"}
 
 func runExtra(c *fw.Case, k int) {
 	r := c.Rng
@@ -473,9 +490,12 @@ func runExtra(c *fw.Case, k int) {
 	wide := append(append([]string{}, tokens...), "nope", "!nope", "!any", "!ANY", "eth00", "Eth0", "!Eth0", "a.b:c_d-e", "123456789012345")
 	for i := 0; i < 150; i++ {
 		n := 1 + r.Intn(9)
+		if i == 0 {
+			n = 300 // one very long, highly repetitive list
+		}
 		list := make([]string, n)
 		for j := range list {
-			if r.Intn(3) == 0 {
+			if r.Intn(3) == 0 && i > 0 {
 				list[j] = wide[r.Intn(len(wide))]
 			} else {
 				list[j] = tokens[r.Intn(len(tokens))]
